@@ -77,6 +77,11 @@ fn fault_val(v: u8) -> f64 {
 
 pub struct BudgetExceeded;
 
+thread_local! {
+    /// right-hand-side evaluations made on this thread (used to bound the work spent on shrinking)
+    pub static WORK: Cell<u64> = Cell::new(0);
+}
+
 #[derive(Default, Clone, Debug)]
 pub struct Log {
     pub ode_calls: u64,
@@ -124,7 +129,7 @@ impl<'a> Instr<'a> {
             use_jac: false,
             jac_band: None,
             mass: None,
-            budget: 2_000_000,
+            budget: 1_000_000,
             fault: None,
             dir: 1.0,
             rec_ode: false,
@@ -166,6 +171,7 @@ impl<'a> IVP for Instr<'a> {
             } else {
                 l.ode_calls += 1;
             }
+            WORK.with(|w| w.set(w.get() + 1));
             if l.ode_calls + l.ode_calls_in_jac > self.budget {
                 drop(l);
                 std::panic::panic_any(BudgetExceeded);
